@@ -5,22 +5,25 @@
 ID=$1; TAG=$2; shift 2; CHECKS="$ID $@"
 WT=/tmp/seed-$ID$TAG; OUT=/tmp/seedout/$ID$TAG; DST=/verif/seeded/$ID$TAG
 [ -f $OUT/patch.diff ] || { echo "no patch"; exit 2; }
-git -C /repo status --short | grep -q . && { echo "/repo not clean"; exit 2; }
 mkdir -p $DST; cp $OUT/patch.diff $OUT/notes.md $OUT/run.sh $DST/ 2>/dev/null; cp $OUT/demo.* $DST/ 2>/dev/null
 # make sure the worktree holds exactly the patch
 git -C $WT checkout -q -- . ; git -C $WT apply $OUT/patch.diff || { echo "patch does not apply"; exit 2; }
 echo "--- demo on changed tree (must fail)"; (cd $OUT; timeout 900 bash run.sh $WT > $DST/demo_changed.log 2>&1); RC1=$?; echo "rc=$RC1"; tail -3 $DST/demo_changed.log | cut -c1-200
 echo "--- demo on unchanged tree (must pass)"; (cd $OUT; timeout 900 bash run.sh /repo > $DST/demo_unchanged.log 2>&1); RC2=$?; echo "rc=$RC2"; tail -2 $DST/demo_unchanged.log | cut -c1-200
 echo "--- pytest on changed tree"; PT=$(cd $WT && timeout 900 /venv/bin/python -m pytest -q -p no:cacheprovider --timeout=900 --continue-on-collection-errors test/doc doc/ext 2>&1 | tail -1); echo "$PT"
-echo "--- checks against the change applied to /repo"
-git -C /repo apply $OUT/patch.diff || { echo "cannot apply to /repo"; exit 2; }
+echo "--- checks against the change"
 RES=""
 for c in $CHECKS; do
-  (cd /verif; timeout 3000 ./vcheck $c --tier quick > $DST/vcheck_$c.log 2>&1); RC=$?
+  if [ -n "$SEED_INPLACE" ]; then
+    git -C /repo apply $OUT/patch.diff || { echo "cannot apply to /repo"; exit 2; }
+    (cd /verif; timeout 3000 ./vcheck $c --tier quick > $DST/vcheck_$c.log 2>&1); RC=$?
+    git -C /repo checkout -- .
+  else
+    (cd /verif; VERIF_REPO=$WT timeout 3000 ./vcheck $c --tier quick > $DST/vcheck_$c.log 2>&1); RC=$?
+  fi
   echo "vcheck $c rc=$RC"; grep -A1 'VIOLATION' $DST/vcheck_$c.log | head -4 | cut -c1-250
   RES="$RES $c:$RC"
 done
-git -C /repo checkout -- .
 git -C /repo status --short | head -3
 /venv/bin/python - "$ID" "$TAG" "$RC1" "$RC2" "$PT" "$RES" <<'P'
 import json, sys
@@ -28,7 +31,7 @@ pid, tag, rc1, rc2, pt, res = sys.argv[1:7]
 meta = {"property": pid, "seed": pid + tag, "demo_rc_changed": int(rc1), "demo_rc_unchanged": int(rc2), "pytest_changed_tree": pt,
         "checks_run": {r.split(':')[0]: int(r.split(':')[1]) for r in res.split()},
         "caught": any(int(r.split(':')[1]) == 1 for r in res.split()),
-        "what_ran": "run.sh on the scratch worktree and on /repo; pytest test/doc doc/ext on the worktree; git -C /repo apply patch.diff; ./vcheck <id> --tier quick; git -C /repo checkout -- .",
+        "what_ran": "run.sh on the scratch worktree (change applied) and on /repo (unchanged); pytest test/doc doc/ext on the worktree; ./vcheck <id> --tier quick against the changed tree (VERIF_REPO=<worktree holding exactly patch.diff>, or with SEED_INPLACE=1: git -C /repo apply patch.diff; vcheck; git -C /repo checkout -- .)",
         "needs_to_manifest": "see notes.md"}
 json.dump(meta, open('/verif/seeded/%s%s/meta.json' % (pid, tag), 'w'), indent=1)
 print(json.dumps(meta)[:400])
